@@ -48,6 +48,9 @@ func goElemType(t *ref.Type) reflect.Type {
 	case ref.KI32:
 		return tI32
 	case ref.KI64:
+		if t.Named {
+			return tEnum
+		}
 		return tI64
 	case ref.KDouble:
 		return tDouble
